@@ -44,6 +44,13 @@ def generate(rng, tier):
                 c["xin"] = [v - 0.75 * top for v in c["xin"]]
                 c["int_dtype"] = [False, c["int_dtype"][1], c["int_dtype"][2]]
                 c["desc"]["grid"] = str(c["desc"]["grid"]) + "+beyond_minus_xmax"
+        if i % 10 == 8 and c["xmin"] is None and c["xmax"] is None and len(c["xin"]) >= 3:
+            # every abscissa negative (a curve given on the mirrored axis): the constant is still pi / (largest abscissa), the weight sin(ax)/(ax)
+            top, low = max(c["xin"]), min(c["xin"])
+            shift = top + 0.3 * (top - low) + 0.05
+            c["xin"] = [v - shift for v in c["xin"]]
+            c["int_dtype"] = [False, c["int_dtype"][1], c["int_dtype"][2]]
+            c["desc"]["grid"] = str(c["desc"]["grid"]) + "+all_negative"
         c["poison"] = i % 3
         cases.append(c)
     # one long problem (10^4 input points x 500 output points) with uncertainties: whatever path a size-dependent implementation takes
